@@ -40,7 +40,7 @@ PROPS = {
     'C02': dict(module='c02', pfile='P_C02', required=['C02_aligned', 'C02_fraction', 'C02_volume', 'C02_evidence', 'C02_weights', 'C02_kish', 'C02_exec_volume', 'C02_exec_shell_evidence', 'C02_exec_shell_neff', 'C02_exec_evidence', 'C02_exec_neff'],
                 trusted=[KERNEL, EXTRACTION] + SHELL_TRUST + ['the exact evaluator EstimExec (dyadic sums) used for the comparison is proved to compute the specification statistics of Estim.v (C02_exec_*)', 'exp/log at the boundary of the exact model and the 1e-9 tolerance in harness/shellfam.py']),
     'C03': dict(module='c03', pfile='P_C03', required=['C03_rows', 'C03_once', 'C03_posterior', 'C03_blob_shape', 'C03_squeeze_asis_refuted'], trusted=[KERNEL, EXTRACTION] + SHELL_TRUST),
-    'C10': dict(module='c10', pfile='P_C10', required=['C10_batch', 'C10_counter', 'C10_count', 'C10_budget', 'C10_success', 'C10_branch', 'C10_stop_refines', 'C10_stop_rule'], trusted=[KERNEL, EXTRACTION] + SHELL_TRUST + ['oracle bits of the run() loop: n_eff >= target recomputed by the harness from the public accessor, time-out only exercised as timeout=0']),
+    'C10': dict(module='c10', pfile='P_C10', required=['C10_batch', 'C10_counter', 'C10_count', 'C10_budget', 'C10_success', 'C10_branch', 'C10_stop_refines', 'C10_stop_rule'], trusted=[KERNEL, EXTRACTION] + SHELL_TRUST + ['oracle bits of the run() loop: n_eff >= target and f_live <= target recomputed by the harness from the public accessors (floating point is not modelled), time-out only exercised as timeout=0; order of log-likelihood values given to the control layer as ranks computed by numpy']),
     'C12': dict(module='c12', pfile='P_C12', required=['C12_frozen', 'C12_nonempty', 'C12_toggle', 'C12_view'], trusted=[KERNEL, EXTRACTION] + SHELL_TRUST),
     'C09': dict(module='c09', pfile='P_C09',
                 required=['C09_cube', 'C09_ellipsoid', 'C09_mixture', 'C09_union', 'C09_shift', 'C09_emulator', 'C09_neural', 'C09_nautilus', 'C09_update_union', 'C09_update_nautilus'],
@@ -53,6 +53,7 @@ PROPS = {
     'C05': dict(module='c05', pfile='P_C05', required=['C05_any_history', 'C05_update_full_write', 'C05_batch_frame', 'C05_toggle_frame', 'C05_read_write', 'C05_read_update', 'C05_control_core', 'C05_control_aligned', 'C05_control_counters', 'C05_control_zoom', 'C05_control_iters', 'C05_control_threshold', 'C05_control_threshold_unique'],
                 trusted=[KERNEL, 'harness/c05.py: canonical deep form of Sampler and bound objects (attribute lists explicit, unknown attributes fail closed; Union.block whitelisted as never read after construction; of an MLPRegressor the weights and the attributes predict() reads)',
                          'the hypotheses of the generic theorem other than the round trip (a batch is a function of the compared state; observables respect the comparison) are validated by bit-for-bit continuations, not proved',
+                         'sampler-file codec (SamplerCodec.v) evaluated inside Coq on dumps of the real files: values are opaque tokens by byte pattern, bound groups opaque subtrees (their codec is C09); control layer (Shell2Ctl.v) extracted with ExtrOcamlBasic, order of log-likelihood values supplied as ranks computed by numpy',
                          'modelled not verified: numpy Generator determinism, h5py']),
     'C14': dict(module='c14', pfile='P_C14', required=['C14_floor_or_next', 'C14_expectation', 'C14_boost_le_1', 'C14_no_duplicates', 'C14_aligned', 'C14_order', 'C14_weights'],
                 trusted=[KERNEL, 'model evaluated inside Coq by vm_compute on generated cases_C14.v',
